@@ -66,6 +66,29 @@ Proof.
   by apply: eq_bigr => i _; rewrite E /mahal Exc Ec.
 Qed.
 
+(** ---- every branch of the routine at once: K = what is done to the covariance before it multiplies the centred rows (inverse of the
+    matrix itself, or of the matrix regularised by 1e-6 trace when the rank test fires), g = what is done to the deviation
+    (np.clip to +-1e6). Non-negativity and invariance under rescaling the weights hold for EVERY K and g; affine invariance for the
+    plain inverse and every g (so the clip does not matter, the regularisation does). ---- *)
+Definition vvgen (K : 'M[F]_d -> 'M[F]_d) (g : F -> F) x w :=
+  \sum_i (wnorm w i) ^+ 2 * (g ((xc x w i *m K (wcov x w) *m (xc x w i)^T) 0 0 - d%:R)) ^+ 2.
+
+Lemma vvgen_plain x w : vvgen invmx id x w = vv2 x w.
+Proof. by []. Qed.
+
+Theorem vvgen_ge0 K g x w : 0 <= vvgen K g x w.
+Proof. by apply: sumr_ge0 => i _; apply: mulr_ge0; rewrite sqr_ge0. Qed.
+
+Theorem vvgen_weight_scale K g c x w : c != 0 -> vvgen K g x (fun j => c * w j) = vvgen K g x w.
+Proof.
+  move=> c0.
+  have E : wnorm (fun j => c * w j) =1 wnorm w by move=> i; apply: wnorm_scale.
+  have Em : wmean x (fun j => c * w j) = wmean x w by apply: eq_bigr => i _; rewrite E.
+  have Exc : xc x (fun j => c * w j) =1 xc x w by move=> i; rewrite /xc Em.
+  have Ec : wcov x (fun j => c * w j) = wcov x w by apply: eq_bigr => i _; rewrite E Exc.
+  by apply: eq_bigr => i _; rewrite E Exc Ec.
+Qed.
+
 Variable (A : 'M[F]_d) (b : 'rV[F]_d).
 Definition aff x : 'I_n -> 'rV[F]_d := fun i => x i *m A + b.
 
@@ -92,5 +115,12 @@ Theorem vv2_affine x w :
 Proof.
   move=> h uA uC. apply: eq_bigr => i _. congr (_ * (_ - _) ^+ 2).
   by rewrite /mahal xc_aff // wcov_aff // mahal_transport.
+Qed.
+(** the clipped metric is affine invariant too (whatever is done to the deviation afterwards) *)
+Theorem vvgen_affine g x w :
+  wsum w != 0 -> A \in unitmx -> wcov x w \in unitmx -> vvgen invmx g (aff x) w = vvgen invmx g x w.
+Proof.
+  move=> h uA uC. apply: eq_bigr => i _. congr (_ * (g (_ - _)) ^+ 2).
+  by rewrite xc_aff // wcov_aff // mahal_transport.
 Qed.
 End Volume.
